@@ -180,7 +180,7 @@ func runC13(rt *rapid.T, c c13case, st *stats.Collector) {
 		}
 		if c.viaDial {
 			synctest.Wait()
-			if e.conn.CloseCalls == 0 {
+			if e.conn.NumCloseCalls() == 0 {
 				rt.Fatalf("Dial failed (%s: %v) but the connection it dialed was never closed", c.answer, err)
 			}
 		}
